@@ -197,7 +197,14 @@ def main(argv=None):
     ov = build.build_overlay(repo)
     overlay.install(ov, repo)
     os.environ["VERIF_REPO_EFFECTIVE"] = repo
+    if a.replay:
+        a.replay = os.path.abspath(a.replay)
+    if repo != os.path.abspath(repo):
+        raise SystemExit("VERIF_REPO must be an absolute path")
     ctx = Ctx(a.pid, a.tier, seed, repo, ov)
+    # The code under test is run from a throw-away working directory: a native writer that resolves a bad or empty
+    # name against the current directory (the DTR writer removes its target recursively) must never see /verif or /repo.
+    os.chdir(ctx.scratch)
     drift = build.pyx_drift(repo)
     for d in drift:
         print("WARNING pyx-drift %s (cannot be rebuilt without Cython; binaries reflect the generated C in the tree)" % d)
